@@ -235,6 +235,9 @@ func genWire(r *Rand, g GenCfg) Plan {
 		for _, k := range []string{"empty", "trunc", "trunc", "other_key", "iss_swapped", "foreign_header", "foreign_header", "unknown_header", "no_header", "two_payloads", "splice", "hostile_header", "hostile_header", "zero_hash", "zero_hash", "did_url", "did_url", "did_url"} {
 			add(XStep{Op: "sig", Tok: r.Intn(2), Kind: k, At: r.Intn(600), Val: r.Intn(256)})
 		}
+		if g.Index%4 == 2 {
+			add(XStep{Op: "sig", Tok: r.Intn(2), Kind: "churn", Val: r.Intn(3)})
+		}
 		for t := 0; t < 2; t++ {
 			for _, f := range fields(p.Tokens[t].Kind) {
 				add(XStep{Op: "jsonfield", Tok: t, Field: f, How: Pick(r, []string{"null", "rewrite", "rewrite+null", "rewrite+null"}), Val: r.Intn(200), At: r.Intn(7)})
